@@ -11,10 +11,13 @@ from __future__ import annotations
 
 import copy
 import itertools
+import json
 import os
+import pathlib
 from collections.abc import Mapping
 
 import numpy as np
+import yaml
 
 from vf.core import HarnessError
 from vf.refmodels.config_model import MISSING, ConfigModel, DeviceRejected, OutOfDomain, cp, norm_key
@@ -24,7 +27,8 @@ LEVEL = "exploration"
 ANCHOR_FILES = ["quantem/core/config.py"]
 RULE = (
     "histories over a 24-operation alphabet (set in mapping/keyword/dotted form with both key spellings, scalar/list/"
-    "nested-mapping values; update_defaults flat and nested; refresh; get present/absent; with-blocks incl. nesting and "
+    "nested-mapping values; update_defaults flat and nested; two user configuration files written into the private QUANTEM_CONFIG "
+    "directory; refresh; get present/absent; with-blocks incl. nesting and "
     "an exception in the body; device requests) enumerated exhaustively to depth 3 (quick) / 4 (thorough) from three "
     "start states (empty private store, pre-seeded private store, module globals) plus seeded random histories of "
     "20 operations; one case = all enumerated histories sharing a 2-operation prefix, or a batch of random histories. "
@@ -34,7 +38,8 @@ RULE = (
     "(coverage.histories, coverage.distinct_nontrivial_histories)"
 )
 ASSUMPTIONS = [
-    "QUANTEM_CONFIG points to an empty directory, so refresh() reads no user yaml",
+    "QUANTEM_CONFIG is the worker's private directory (under ctx.tmp, empty at start and after every history; no environment variable is changed); histories write user configuration files (*.yaml, *.yml, *.json: partial nested sections, both key spellings, block and flow style, several files, empty / comment-only / null / {} files) into it and call refresh() (reads that directory), refresh(path=<dir as str or Path>), refresh(path=<one file>) and refresh(path=<missing>)",
+    "expected store after refresh = fold of the accumulated defaults, then the user files merged on top by nested update (siblings of an overridden key keep their defaults), then later sets; files that are present at the same time never set the same leaf (which file wins is a convention the property does not state); files whose top level is not a mapping or that are not valid yaml make refresh raise on the unchanged tree and are not generated; 'device' in a file only as cpu/CPU",
     "device expectations come from torch.cuda/mps availability of the machine running the check (CPU-only sandbox: every cuda/mps/gpu/index request must be rejected)",
     "malformed device strings are drawn from strings without the substring 'cpu' (check_key_val accepts any string containing it, by design)",
     "set with a mapping value is generated only onto an absent namespace (onto a populated one it replaces the namespace, dask semantics, not addressed by the property); a mapping never holds both spellings of one key with nested-mapping values",
@@ -44,7 +49,7 @@ ASSUMPTIONS = [
 ]
 BUDGET = {"quick": {"soft_s": 100}, "thorough": {"soft_s": 700}}
 MIN_EVALUATIONS = {"quick": 500, "thorough": 1500}
-REQUIRED_COUNTERS = ["eval:get_vs_model", "eval:refresh_vs_defaults", "eval:with_protocol", "eval:with_restore", "eval:device_rejected_unchanged", "eval:spelling_single_entry"]
+REQUIRED_COUNTERS = ["eval:get_vs_model", "eval:refresh_vs_defaults", "eval:refresh_vs_defaults_and_user_files", "eval:with_protocol", "eval:with_restore", "eval:device_rejected_unchanged", "eval:spelling_single_entry"]
 EXHAUSTIVE = {"quick": False, "thorough": False}  # bounded-exhaustive part + random part
 
 STORES = ["private", "seeded", "global"]
@@ -67,7 +72,7 @@ def alphabet(store):
     L1, L0, NS1, N1L, N1P, NS2, N2L, N2S, N2SL = (s[k] for k in ("L1", "L0", "NS1", "N1L", "N1P", "NS2", "N2L", "N2S", "N2SL"))
     return [
         {"op": "set", "form": "map", "items": [[L1[H], 1]]},
-        {"op": "set", "form": "map", "items": [[L1[U], 2]]},
+        {"op": "file", "name": "10-user.yaml", "content": {NS1: {N1L[H]: 40}, L1[H]: 41, NS2[U]: {N2L[H]: "u"}}},
         {"op": "set", "form": "kw", "items": [[L1[U], 10]]},
         {"op": "set", "form": "map", "items": [[NS1 + "." + N1L[H], 4]]},
         {"op": "set", "form": "kw", "items": [[NS1 + "__" + N1L[U], 5]]},
@@ -80,7 +85,7 @@ def alphabet(store):
         {"op": "ud", "new": {L1[U]: 1}},
         {"op": "refresh"},
         {"op": "get", "key": NS2[U] + "." + N2L[H], "default": "dflt"},
-        {"op": "get", "key": "no-such_key"},
+        {"op": "file", "name": "20-more.yml", "content": {NS1: {N1P: "y"}, NS2[H]: {N2S[U]: {N2SL[U]: 42}}}},
         {"op": "with", "form": "map", "items": [[L1[U], 20], [NS1 + "." + N1P, "w"]]},
         {"op": "with", "form": "kw", "items": [[NS2[U] + "__" + N2L[U], "c"]]},
         {"op": "end"},
@@ -177,9 +182,13 @@ def setup(ctx):
     st = ctx.state
     st["C"], st["torch"] = C, torch
     st["rule"], avail = _device_rule_factory(torch)
-    p = str(C.PATH)
-    if os.path.isdir(p) and os.listdir(p):
+    p = os.path.realpath(str(C.PATH))
+    if not p.startswith(os.path.realpath(ctx.tmp) + os.sep):
+        raise HarnessError("the user configuration directory %s is not private to this worker (%s)" % (p, ctx.tmp))
+    os.makedirs(p, exist_ok=True)
+    if os.listdir(p):
         raise HarnessError("QUANTEM_CONFIG directory %s is not empty" % p)
+    st["userdir"] = p
     if not isinstance(C.config, dict) or not isinstance(C.defaults, list):
         raise HarnessError("config/defaults are not the documented dict/list")
     st["snap"] = (copy.deepcopy(C.config), [copy.deepcopy(dict(d)) for d in C.defaults])
@@ -263,6 +272,8 @@ class Runner:
         self.nontrivial = False
         self.wrote_spelled = False  # some write used a key that has two spellings
         self.nops = 0
+        self.userdir = st["userdir"]
+        self.files = {}  # user configuration files currently on disk: name -> mapping (or None for an empty file)
 
     # ---- bookkeeping ------------------------------------------------------------------------
     def _learn_spellings(self, d, prefix):
@@ -467,10 +478,58 @@ class Runner:
             self._note_write(k, v)
         self.compare("get_vs_model")
 
+    def op_file(self, op):
+        """the user edits a configuration file in the (worker-private) configuration directory"""
+        name, content = op["name"], op.get("content")
+        path = os.path.join(self.userdir, name)
+        if content == "delete":
+            if name in self.files:
+                os.unlink(path)
+                del self.files[name]
+            return
+        with open(path, "w") as f:
+            if isinstance(content, dict):
+                if name.endswith(".json"):
+                    json.dump(content, f)
+                else:
+                    yaml.safe_dump(content, f, default_flow_style=bool(op.get("flow")))
+                self.files[name] = content
+                for k, v in content.items():
+                    self._note_write(k, v)
+            else:
+                f.write({"empty": "", "comment": "# nothing configured yet\n", "null": "null\n" if not name.endswith(".json") else "null", "emptymap": "{}\n"}[content])
+                self.files[name] = None
+        self.ctx.count("user_files_written")
+
+    def cleanup_files(self):
+        for name in list(self.files):
+            try:
+                os.unlink(os.path.join(self.userdir, name))
+            except OSError:
+                pass
+        self.files.clear()
+
     def op_refresh(self, op):
-        self.model.refresh()
-        self.C.refresh(**self.kw_cd)
-        self.compare("refresh_vs_defaults")
+        how = op.get("how", "default")
+        kw = dict(self.kw_cd)
+        if how == "default":  # the process-wide user directory (QUANTEM_CONFIG)
+            used = list(self.files.items())
+        elif how == "path_dir":
+            kw["path"] = self.userdir if op.get("as_str", True) else pathlib.Path(self.userdir)
+            used = list(self.files.items())
+        elif how == "path_file":
+            kw["path"] = os.path.join(self.userdir, op["name"])
+            used = [(op["name"], self.files[op["name"]])] if op["name"] in self.files else []
+        else:  # a path that does not exist: no user files
+            kw["path"] = os.path.join(self.userdir, "no-such-dir")
+            used = []
+        self.model.refresh(used)
+        self.C.refresh(**kw)
+        if any(m for _, m in used):
+            self.ctx.count("refresh_with_user_files")
+            self.compare("refresh_vs_defaults_and_user_files", phase=":" + how)
+        else:
+            self.compare("refresh_vs_defaults")
 
     def op_get(self, op):
         ctx, C, m = self.ctx, self.C, self.model
@@ -506,6 +565,22 @@ class Runner:
 
             walk(op["new"], ())
             return out
+        if k == "refresh":  # everything the rebuilt store will contain: accumulated defaults and user files
+            out = []
+
+            def walk2(d, p):
+                for kk, v in d.items():
+                    q = p + (norm_key(kk),)
+                    if isinstance(v, Mapping):
+                        walk2(v, q)
+                    else:
+                        out.append(q)
+
+            walk2(self.model.merged_defaults(), ())
+            for m in self.files.values():
+                if m:
+                    walk2(m, ())
+            return out
         return []
 
     def _conflict(self, op):
@@ -533,7 +608,7 @@ class Runner:
         while self.i < len(self.ops):
             op = self.ops[self.i]
             k = op["op"]
-            if depth > 0 and k in ("set", "ud") and self._conflict(op):
+            if depth > 0 and k in ("set", "ud", "refresh") and self._conflict(op):
                 return "conflict"  # the enclosing block is closed first, the operation then runs outside it
             self.i += 1
             self.nops += 1
@@ -554,6 +629,8 @@ class Runner:
                 self.op_ud(op)
             elif k == "refresh":
                 self.op_refresh(op)
+            elif k == "file":
+                self.op_file(op)
             elif k == "get":
                 self.op_get(op)
             elif k == "device":
@@ -700,10 +777,49 @@ def _rand_ops(rng, store, n):
                     cur[ex[0]] = value()
         return d
 
+    def leaves(d, p=()):
+        out = set()
+        for k, v in d.items():
+            q = p + (norm_key(k),)
+            out |= leaves(v, q) if isinstance(v, dict) else {q}
+        return out
+
+    def prune(d, taken, p=()):
+        """drop leaves that another current file already sets (files never contradict each other)"""
+        for k in list(d):
+            q = p + (norm_key(k),)
+            if isinstance(d[k], dict):
+                prune(d[k], taken, q)
+                if not d[k]:
+                    del d[k]
+            elif q in taken:
+                del d[k]
+        return d
+
+    FILES = ["05-site.yaml", "10-user.yml", "20-project.json", "30-local.yaml"]
+    files = {}
     ops, open_ = [], 0
     for _ in range(n):
         c = rng.random()
-        if c < 0.30:
+        if c < 0.07:
+            name = FILES[int(rng.integers(len(FILES)))]
+            u = rng.random()
+            if u < 0.12:
+                content = ["empty", "comment", "null", "emptymap"][int(rng.integers(4))]
+                files[name] = {}
+            elif u < 0.2 and name in files:
+                content = "delete"
+                files.pop(name)
+            else:
+                taken = set().union(*[leaves(m) for nm, m in files.items() if nm != name]) if files else set()
+                content = prune(nested_defaults(), taken)
+                if rng.random() < 0.15 and ("device",) not in taken:
+                    content["device"] = ["cpu", "CPU"][int(rng.integers(2))]
+                files[name] = content
+                if not content:
+                    content = "emptymap"
+            ops.append({"op": "file", "name": name, "content": content, "flow": bool(rng.random() < 0.3)})
+        elif c < 0.30:
             form = ["map", "kw", "map"][int(rng.integers(3))]
             k = int(rng.integers(1, 4))
             if form == "kw":
@@ -718,7 +834,13 @@ def _rand_ops(rng, store, n):
         elif c < 0.52:
             ops.append({"op": "ud", "new": nested_defaults()})
         elif c < 0.60:
-            ops.append({"op": "refresh"})
+            how = ["default", "default", "path_dir", "path_file", "path_missing"][int(rng.integers(5))] if files else ["default", "path_dir", "path_missing"][int(rng.integers(3))]
+            op = {"op": "refresh", "how": how}
+            if how == "path_file":
+                op["name"] = FILES[int(rng.integers(len(FILES)))]
+            if how == "path_dir":
+                op["as_str"] = bool(rng.random() < 0.5)
+            ops.append(op)
         elif c < 0.68:
             key = leaf_key() if rng.random() < 0.7 else ["nope", s["L0"] + ".below-leaf", sp(s["NS2"]) + ".missing_one"][int(rng.integers(3))]
             op = {"op": "get", "key": key}
@@ -759,6 +881,7 @@ def _run_history(ctx, store, prologue, ops, tag):
     try:
         ok = r.run(list(prologue) + list(ops))
     finally:
+        r.cleanup_files()
         if store == "global":
             _restore_globals(st)
     if store == "global":
@@ -821,6 +944,8 @@ def summarize(all_cases, counters, extras):
         "nontrivial_histories": int(counters.get("histories_nontrivial", 0)),
         "distinct_nontrivial_histories": int(sum(e.get("distinct_nontrivial_histories", 0) for e in extras)),
         "histories_left_domain": int(counters.get("history_left_domain", 0)),
+        "user_files_written": int(counters.get("user_files_written", 0)),
+        "refreshes_with_user_files": int(counters.get("refresh_with_user_files", 0)),
     }
     if extras:
         out["device_availability"] = extras[0].get("device_availability")
